@@ -144,9 +144,9 @@ def _check(formula, timeout, tactic=None):
     if tactic == "ctx":
         plan = [("ctx", timeout)]
     elif tactic in ("portfolio", "ctx-first"):
-        # most queries are decided by the default pipeline in well under 20 s; the ones it cannot do are usually quick
+        # most queries are decided by the default pipeline in well under 60 s; the ones it cannot do are usually quick
         # for the contextual simplifier, and vice versa
-        plan = [(None, min(20, timeout)), ("ctx", timeout / 2), (None, timeout / 2)]
+        plan = [(None, min(60, timeout)), ("ctx", timeout / 2), (None, timeout / 2)]
     for tac, tmo in plan:
         s = _solver(tmo, tac)
         s.add(formula)
